@@ -1630,8 +1630,16 @@ func (self *Aof) waitLockAofChannel(_ *AofChannel) {
 		}
 	}
 	if self.channelFlushWaiter != nil {
-		close(self.channelFlushWaiter)
-		self.channelFlushWaiter = nil
+		queueCount := 0
+		for _, channel := range self.channels {
+			channel.queueGlock.Lock()
+			queueCount += channel.queueCount
+			channel.queueGlock.Unlock()
+		}
+		if queueCount == 0 {
+			close(self.channelFlushWaiter)
+			self.channelFlushWaiter = nil
+		}
 	}
 	self.aofGlock.Unlock()
 }
@@ -1665,7 +1673,7 @@ func (self *Aof) WaitFlushAofChannel() error {
 			channel.queueGlock.Unlock()
 		}
 
-		if queueCount == 0 {
+		if queueCount == 0 && atomic.CompareAndSwapUint32(&self.channelActiveCount, 0, 0) {
 			self.aofGlock.Lock()
 			if channelFlushWaiter == self.channelFlushWaiter {
 				self.channelFlushWaiter = nil
